@@ -17,6 +17,9 @@
 (*                      seconds ("1500ms" is 1 s + 500 ms)                    *)
 (*   "K"                the digit run 1000: sub-second terms that are EXACTLY *)
 (*                      whole seconds ("-1000ms" is -1 s, no fraction left)   *)
+(*   "Z"                the digit run 0000000000000000000007 (22 characters):  *)
+(*                      a small number written with more digits than any      *)
+(*                      64-bit integer has - leading zeros carry no value     *)
 (*                                                                         *)
 (* The scanner walks the characters; at every non-digit that is not the      *)
 (* first character it parses the text since `start` as a signed integer,     *)
@@ -32,7 +35,7 @@ EXTENDS Integers, Sequences, TLC
 CONSTANT MaxLen
 CONSTANT Alphabet          \* the symbols strings are built from
 
-Digits  == {"1", "2", "T", "K"}
+Digits  == {"1", "2", "T", "K", "Z"}
 BigNums == {"B", "M"}
 Signs   == {"+", "-"}
 Letters == {"n", "s", "u", "m", "h", "d", "w", "o", "y", "x"}
@@ -59,7 +62,8 @@ ModelMax == 22222
 RECURSIVE DigitsVal(_, _)
 DigitsVal(t, acc) == IF t = <<>> THEN acc
                      ELSE IF acc > ModelMax THEN acc            \* saturate: already beyond
-                     ELSE DigitsVal(Tail(t), IF Head(t) = "T" THEN acc * 10000 + 1500
+                     ELSE DigitsVal(Tail(t), IF Head(t) = "Z" THEN (IF acc = 0 THEN 7 ELSE ModelMax + 1)
+                                             ELSE IF Head(t) = "T" THEN acc * 10000 + 1500
                                              ELSE IF Head(t) = "K" THEN acc * 10000 + 1000
                                              ELSE acc * 10 + (IF Head(t) = "1" THEN 1 ELSE 2))
 NumOf(t) ==
